@@ -25,6 +25,7 @@ import (
 	"strings"
 	"sync"
 	"sync/atomic"
+	"time"
 
 	"github.com/nspcc-dev/neo-go/pkg/core/block"
 	"github.com/nspcc-dev/neo-go/pkg/core/state"
@@ -125,6 +126,40 @@ type Tables struct {
 	GasBalance  int64
 	Votes       map[util.Uint160]*keys.PublicKey // alphabet contract -> current vote
 	NNSUsers    map[string]bool                  // name+"/"+scripthash -> registered
+
+	// one-shot read fault: the FailNth-th (1-based) read named FailRead (e.g. "netmap.NetMap", "fs.TxHeight")
+	// after the plan was set fails with ErrInjected; the plan then disarms itself.
+	FailRead string
+	FailNth  int
+	failSeen int
+}
+
+// ErrInjected is returned by a read that the fault plan makes fail.
+var ErrInjected = errors.New("irworld: injected chain read failure")
+
+// SetReadFault arms the one-shot read fault plan ("" disarms).
+func (t *Tables) SetReadFault(name string, nth int) { t.FailRead, t.FailNth, t.failSeen = name, nth, 0 }
+
+// faultLocked reports whether this read must fail (w.mu held).
+func (w *World) faultLocked(name string) bool {
+	if w.T.FailRead == "" || w.T.FailRead != name {
+		return false
+	}
+	w.T.failSeen++
+	if w.T.failSeen == w.T.FailNth {
+		w.T.FailRead = ""
+		return true
+	}
+	return false
+}
+
+// FaultableRead tells whether the fault plan can make the named read fail.
+func FaultableRead(name string) bool {
+	switch name {
+	case "fs.TxHeight", "fs.GetBlockHeader", "fs.BlockCount", "container.Get", "container.List":
+		return true
+	}
+	return strings.HasPrefix(name, "netmap.")
 }
 
 // World is one inner ring node with its recording chain.
@@ -278,6 +313,7 @@ type Options struct {
 	Log           *zap.Logger
 	NoStart       bool // build only (Server.Start is not called)
 	ExternalValidator bool // configure sn_validator (the external node validator)
+	IndexerCacheTimeout time.Duration // indexer.cache_timeout (0 = every membership query refreshes)
 }
 
 // AlphabetKey returns the i-th alphabet key of every world (shared universe).
@@ -364,7 +400,7 @@ func New(label string, o Options, init func(w *World)) (w *World, err error) {
 	cfg.Emit.Mint = irconfig.Mint{Value: 20000000, CacheSize: 100, Threshold: 1}
 	cfg.Emit.Gas.BalanceThreshold = 0
 	cfg.Workers = irconfig.Workers{Alphabet: 2, Balance: 2, Container: 2, NeoFS: 2, Netmap: 2, Reputation: 2}
-	cfg.Indexer.CacheTimeout = 0
+	cfg.Indexer.CacheTimeout = o.IndexerCacheTimeout
 	cfg.Experimental.AllowEC = o.AllowEC
 	if o.ExternalValidator {
 		cfg.Validator = irconfig.Validator{Enabled: true, URL: "http://verif.invalid/validate"}
@@ -555,13 +591,13 @@ var errNoSuch = errors.New("irworld: no such record")
 // onClient answers / records one morph client call. Unknown methods are a harness error, never ignored.
 func (w *World) onClient(c *client.Client, name string, a []any) []any {
 	chain := w.chainOf(c)
-	rd := func() {
-		if !w.TraceReads {
-			return
-		}
+	rd := func() bool {
 		w.mu.Lock()
-		w.reads = append(w.reads, chain+"."+name)
-		w.mu.Unlock()
+		defer w.mu.Unlock()
+		if w.TraceReads {
+			w.reads = append(w.reads, chain+"."+name)
+		}
+		return w.faultLocked(chain + "." + name)
 	}
 	switch name {
 	// ---- mutating calls needing alphabet authority ----
@@ -625,7 +661,9 @@ func (w *World) onClient(c *client.Client, name string, a []any) []any {
 	case "GetNotaryDeposit":
 		return []any{int64(0), nil}
 	case "TxHeight":
-		rd()
+		if rd() {
+			return []any{uint32(0), ErrInjected}
+		}
 		w.mu.Lock()
 		defer w.mu.Unlock()
 		if h, ok := w.T.TxHeight[a[0].(util.Uint256)]; ok {
@@ -635,12 +673,16 @@ func (w *World) onClient(c *client.Client, name string, a []any) []any {
 	case "TxHalt":
 		return []any{true, nil}
 	case "BlockCount", "GetBlockCount":
-		rd()
+		if rd() {
+			return []any{uint32(0), ErrInjected}
+		}
 		w.mu.Lock()
 		defer w.mu.Unlock()
 		return []any{w.T.BlockCount, nil}
 	case "GetBlockHeader":
-		rd()
+		if rd() {
+			return []any{nil, ErrInjected}
+		}
 		w.mu.Lock()
 		defer w.mu.Unlock()
 		i := a[0].(uint32)
@@ -713,6 +755,12 @@ func (w *World) onContainer(name string, a []any) []any {
 	if w.TraceReads {
 		w.reads = append(w.reads, "container."+name)
 	}
+	if w.faultLocked("container." + name) {
+		if name == "Get" {
+			return []any{container.Container{}, ErrInjected}
+		}
+		return []any{nil, ErrInjected}
+	}
 	switch name {
 	case "Get":
 		if w.T.ContainerErr != nil {
@@ -749,6 +797,16 @@ func (w *World) onNetmap(name string, a []any) []any {
 	defer w.mu.Unlock()
 	if w.TraceReads {
 		w.reads = append(w.reads, "netmap."+name)
+	}
+	if w.faultLocked("netmap." + name) {
+		switch name {
+		case "Epoch", "EpochDuration", "BasicIncomeRate":
+			return []any{uint64(0), ErrInjected}
+		case "LastEpochBlock", "GetEpochBlock", "GetEpochBlockByTime":
+			return []any{uint32(0), ErrInjected}
+		default:
+			return []any{nil, ErrInjected}
+		}
 	}
 	switch name {
 	case "Epoch":
